@@ -112,7 +112,9 @@ class Soup(Space):
 
 TOKENS = ["```", "~~~", "````x", "`", "``", "**", "*", "__", "~~", "[", "](", "](u", ")", "[^", "]:", "![", "<", "<!--", "-->", "<a", "</a>", "{%", "%}", "{{", "}}",
           "{#", "#}", "|", "|-|", "---", "===", "- ", "1. ", "> ", "# ", "    ", "\\", "\\\n", "  \n", "\n", "\n\n", "&amp;", "&#0;", " ", "\U0001F600",
-          "\x00AC0\x00", "\x00", "\r\n", "\r", "http://", "www.", "a", "中", "[x]: ", "[^x]: ", "> [!NOTE]\n"]
+          "\x00AC0\x00", "\x00", "\r\n", "\r", "http://", "www.", "a", "中", "[x]: ", "[^x]: ", "> [!NOTE]\n",
+          # appended later: link / image / definition heads and escaped-backslash tails
+          "[l](", "![i](", "[l](<", "\\\\", "\\\\)", "\\\\>", " \"t", "\\\"", "'t')"]
 
 
 class Tokens(Space):
